@@ -1,6 +1,7 @@
 """Scenarios = symbolic configuration + symbolic input + entry point, and translator validation
 of each explored path against the native build of the same sources."""
 import json
+import zlib
 import re
 import time
 
@@ -94,9 +95,21 @@ class ConfigSpec:
 class BlockScenario(AstChecksBase):
     """`{ <expr>; }` : one symbolic expression statement inside a block, through BlockTransformVisitor::visit_mut_block_stmt."""
 
-    def __init__(self, ep, cfgspec):
+    def __init__(self, ep, cfgspec, wrapper=None, v8=None):
         self.ep = ep
         self.cfgspec = cfgspec
+        self.v8 = v8 if not wrapper else None      # V8 differential validation of every v8-th translator-validated path
+        # (prefix, suffix) of JS text put around the printed block in witnesses, e.g. a class with a private field and a
+        # method, so that `this.#x` parses; the block itself is still what the symbolic run visits
+        self.wrapper = wrapper
+
+    def print_input(self, pr, inp):
+        s = pr.block(inp)
+        return self.wrapper[0] + s + self.wrapper[1] if self.wrapper else s
+
+    def print_output(self, pr, out):
+        s = pr.block(out)
+        return self.wrapper[0] + s + self.wrapper[1] if self.wrapper else s
 
     def grammar(self, ctx, program):
         return ExprGrammar(ctx, program, self.ep)
@@ -200,7 +213,7 @@ import oracle as O
 from interp import Unsupported
 
 
-def witness(scn, res, ctx, replay, cond=None):
+def witness(scn, res, ctx, replay, cond=None, keep=None):
     """concrete witness of the current path (optionally with an extra condition): input JS, config, predicted output, native output"""
     I = res['I']
     inp = scn.input_tree(res)
@@ -210,6 +223,8 @@ def witness(scn, res, ctx, replay, cond=None):
     if not ctx.check(*extra):
         return None
     model = ctx.solver.model()
+    if keep is not None:
+        keep['model'] = model
     pr = Printer(I.P.defs, model, ctx)
     src = scn.print_input(pr, inp)
     cfg = res['cfgspec'].concrete(I, pr)
@@ -363,16 +378,54 @@ class AstChecks:
                     rec['query'] = s.to_smt2()[:200000]
             info['violations'].append(rec)
         if do_tv:
-            w = witness(self, res, ctx, replay)
+            keep = {}
+            w = witness(self, res, ctx, replay, keep=keep)
             if w is None:
                 info['tv'] = {'agree': False, 'why': 'path condition unsat after completion'}
             else:
                 info['tv'] = {'agree': w['agree'], 'why': w.get('why'), 'input': w['input'], 'pred': w.get('pred_norm'), 'nat': w.get('nat_norm')}
                 info['sample'] = {'input': w['input'], 'output': w['predicted_output'], 'status': w['predicted_status'], 'hooks': len(er.hooks)}
+                if getattr(self, 'v8', None) and w['agree'] and w['predicted_status'] == 'modified' and w.get('native_output') and zlib.crc32(w['input'].encode()) % self.v8 == 0:
+                    info['v8'] = self.v8_validate(w, vs, keep['model'])
+        # counterexamples of C01 are additionally run in V8 (informational: reported with the violation)
+        if getattr(self, 'v8', None):
+            for rec in info['violations']:
+                w = rec.get('witness')
+                if rec['prop'] == 'C01' and w and w.get('agree') and w.get('native_output'):
+                    r = runner_v8().compare(w['input'], w['native_output'], self.v8_names())
+                    w['v8'] = {k: r.get(k) for k in ('verdict', 'variant', 'in_event', 'out_event', 'in_outcome', 'out_outcome', 'why') if r.get(k) is not None}
         return info
 
+    def v8_names(self):
+        ep = getattr(self, 'ep', None)
+        return [n for n in (ep.names if ep is not None else []) if not n.startswith('__datadog_')][:3] or None
 
-for _n in ('replay_kwargs', 'print_input', 'print_output', 'oracles', 'check_path', 'on_panic'):
+    def v8_validate(self, w, vs, model):
+        """semantic-model validation: the verdict of jsorder on this concrete witness against a differential run in V8"""
+        model_differs = False
+        for v in vs:
+            if v.prop != 'C01' or v.cond is False:
+                continue
+            if v.cond is True or z3.is_true(model.eval(v.cond, model_completion=True)):
+                model_differs = True
+                break
+        r = runner_v8().compare(w['input'], w['native_output'], self.v8_names())
+        verdict = r.get('verdict')
+        if verdict not in ('equal', 'differ'):
+            return {'class': 'skipped', 'why': r.get('why')}
+        if verdict == 'equal':
+            return {'class': 'model_differs_v8_equal' if model_differs else 'agree_equal', 'input': w['input'] if model_differs else None, 'roles': sorted(set(v.role for v in vs if v.prop == 'C01'))[:3] if model_differs else None}
+        if model_differs:
+            return {'class': 'agree_differ'}
+        return {'class': 'v8_differs_model_equal', 'input': w['input'], 'output': w['native_output'], 'v8': {k: r.get(k) for k in ('variant', 'at', 'in_event', 'out_event', 'in_outcome', 'out_outcome', 'in_log', 'out_log', 'in_prim', 'out_prim')}}
+
+
+def runner_v8():
+    import runner
+    return runner._v8()
+
+
+for _n in ('replay_kwargs', 'print_input', 'print_output', 'oracles', 'check_path', 'on_panic', 'v8_names', 'v8_validate'):
     setattr(AstChecksBase, _n, getattr(AstChecks, _n))
 
 
@@ -521,6 +574,77 @@ class LiteralScenario(ProgramScenario):
         if sorted(pred, key=repr) != sorted(natl, key=repr):
             return False, 'literal report differs: predicted %r native %r' % (sorted(pred, key=repr), sorted(natl, key=repr))
         return True, None
+
+
+def order_free(v, defs):
+    """view with hash containers replaced by order-independent (sorted) association lists"""
+    if isinstance(v, models.SetV):
+        items = [(to_view(k, defs), to_view(x, defs)) for k, x in zip(v.keys, v.vals)] if v.is_map else [(to_view(k, defs), None) for k in v.keys]
+        return {'_t': 'HashContainer', 'entries': sorted(([order_free(a, defs), order_free(b, defs)] for a, b in items), key=repr)}
+    if isinstance(v, dict):
+        return {k: order_free(x, defs) for k, x in v.items()}
+    if isinstance(v, (list, tuple)):
+        return [order_free(x, defs) for x in v]
+    return v
+
+
+class DeterminismScenario(ProgramScenario):
+    """C16: the same symbolic program through two fresh visitors (same configuration), the hash containers of the first
+    iterated in insertion order, those of the second in the opposite order.  Status, telemetry and output tree must agree."""
+
+    RUNS = 48
+
+    def run(self, I):
+        g = I.grammar
+        g.order_mode = 'identity'
+        res = ProgramScenario.run(self, I)
+        g.order_mode = 'reversed'
+        H2 = BlockHarness(I, res['H'].cfg_cell.v)
+        prog2 = self.make_program(g)
+        res['out2'] = H2.visit_program(prog2)
+        res['H2'] = H2
+        g.order_mode = 'identity'
+        return res
+
+    def check_path(self, I, ctx, res, replay, do_tv):
+        defs = I.P.defs
+        st1 = order_free(to_view(res['H'].status(), defs), defs)
+        st2 = order_free(to_view(res['H2'].status(), defs), defs)
+        c = O.tree_eq(st1, st2, ignore=())
+        cancelled = res['H'].status().fields[0].variant == 2
+        d = None
+        if c is True and not cancelled:
+            complete_tree(I.grammar, res['out'])
+            complete_tree(I.grammar, res['out2'])
+            o1, o2 = to_view(res['out'], defs), to_view(res['out2'], defs)
+            c = O.tree_eq(o1, o2, ignore=())
+            if c is not True:
+                d = O.first_diff(o1, o2, ignore=())
+        else:
+            d = ('status / telemetry differ: %s' % O.first_diff(st1, st2, ignore=())) if c is not True else None
+        if c is True or (c is not False and not ctx.check(O.neg(c))):
+            info = AstChecks.check_path(self, I, ctx, res, replay, do_tv)
+            info['obligations'] = info.get('obligations', 0) + 1
+            return info
+        # the two orders disagree: confirm natively (std's RandomState differs per container, so repeated calls vary)
+        info = {'violations': [], 'tv': None, 'sample': None, 'obligations': 1}
+        cond = True if c is False else O.neg(c)
+        inp = self.input_tree(res)
+        complete_tree(I.grammar, inp)
+        if not ctx.check(*([] if cond is True else [cond])):
+            return info
+        pr = Printer(defs, ctx.solver.model(), ctx)
+        src = self.print_input(pr, inp)
+        cfg = res['cfgspec'].concrete(I, pr)
+        seen = {}
+        for _ in range(self.RUNS):
+            nat = replay().rewrite(src, cfg)
+            key = json.dumps([nat.get('ok'), nat.get('status'), nat.get('code'), nat.get('err')])
+            seen[key] = seen.get(key, 0) + 1
+        w = {'input': src, 'config': cfg, 'agree': len(seen) >= 2, 'predicted_output': 'two different results depending on hash iteration order (%s)' % d,
+             'native_output': json.dumps(sorted(seen.items(), key=lambda kv: -kv[1]))[:1500], 'native': {'distinct_results_in_%d_calls' % self.RUNS: len(seen)}}
+        info['violations'].append({'prop': 'C16', 'role': 'nondeterminism/result-depends-on-hash-iteration-order', 'detail': str(d), 'witness': w})
+        return info
 
 
 # ---------------------------------------------------------------------------------------------
@@ -1012,10 +1136,15 @@ def cvc5_check(assertions, timeout_s=60):
         return 'unknown', 'timeout'
     finally:
         try:
-            os.unlink(path)
+            if os.environ.get('VERIF_KEEP_SMT'):
+                os.replace(path, '/tmp/last_cvc5_query.smt2')
+            else:
+                os.unlink(path)
         except OSError:
             pass
     out = r.stdout.strip()
+    if not out:
+        return 'unknown', 'no answer within %ds: %s' % (timeout_s, r.stderr.strip()[:300])
     if out.startswith('unsat'):
         # (the trailing get-model then reports an error, which is expected)
         return 'unsat', None
@@ -1057,6 +1186,8 @@ class PrintScenario:
         ctx = I.ctx
         comments = [True, False][ctx.choose([True, True], 'config.print_comments')]
         has_comment = [True, False][ctx.choose([True, True], 'superseded comment present')]
+        style = ['line', 'block'][ctx.choose([True, True], 'comment style: line | block')] if has_comment else 'line'
+        opener, closer = {'line': ('//', ''), 'block': ('/*', '*/')}[style]
         nonempty_map = [True, False][ctx.choose([True, True], 'source map non-empty')]
         S = z3.StringSort()
         pre, post, tail = ctx.var('pre', S), ctx.var('post', S), ctx.var('tail', S)
@@ -1065,7 +1196,7 @@ class PrintScenario:
         cterm = None
         if has_comment:
             cterm = z3.Concat(z3.StringVal('# sourceMappingURL='), tail)
-            ctx.add(z3.And(code == z3.Concat(pre, z3.StringVal('//'), cterm, post), z3.Length(pre) <= self.max_len, z3.Length(post) <= 4, z3.Length(tail) <= 3, z3.Not(z3.Contains(tail, z3.StringVal('\n')))), dom=False)
+            ctx.add(z3.And(code == z3.Concat(pre, z3.StringVal(opener), cterm, z3.StringVal(closer), post), z3.Length(pre) <= self.max_len, z3.Length(post) <= 4, z3.Length(tail) <= 3, z3.Not(z3.Contains(tail, z3.StringVal('\n'))), z3.Not(z3.Contains(tail, z3.StringVal('*')))), dom=False)
         else:
             ctx.add(z3.Length(code) <= self.max_len, dom=False)
         ctx.add((z3.Length(smap) > 0) if nonempty_map else (smap == z3.StringVal('')), dom=False)
@@ -1074,25 +1205,43 @@ class PrintScenario:
         cfg = mk_config(I, csi, chain=False, comments=comments)
         osm = Adt('OriginalSourceMap', None, [models.none(), models.some(StrV(cterm)) if has_comment else models.none()])
         r = I.call_path('rewriter::print_js', [StrV(code), StrV(smap), Ptr(Cell(osm)), Ptr(Cell(cfg))], None)
-        return {'result': r, 'comments': comments, 'has_comment': has_comment, 'nonempty_map': nonempty_map, 'code': code, 'smap': smap, 'pre': pre, 'post': post, 'cterm': cterm, 'I': I}
+        return {'result': r, 'comments': comments, 'has_comment': has_comment, 'nonempty_map': nonempty_map, 'code': code, 'smap': smap, 'pre': pre, 'post': post, 'cterm': cterm, 'I': I, 'opener': opener, 'closer': closer, 'style': style}
 
     def check_path(self, I, ctx, res, replay, do_tv):
         info = {'violations': [], 'tv': None, 'sample': None, 'obligations': 1, 'hooks': 1}
         r = models.deref(res['result'])
         out = r.fields[0] if isinstance(r, Adt) and r.ty == 'Cow' else r
         out = out.z() if isinstance(out, StrV) else out
-        if res['comments'] and res['has_comment']:
-            final_code = z3.Concat(res['pre'], z3.StringVal('//'), res['post'])
+        opener, closer = res['opener'], res['closer']
+        removing = res['comments'] and res['has_comment']
+        if removing:
+            final_code = z3.Concat(res['pre'], z3.StringVal(opener + closer), res['post'])
         else:
             final_code = res['code']
-        if res['nonempty_map']:
-            expected = z3.Concat(final_code, z3.StringVal('\n//# sourceMappingURL=data:application/json;base64,'), models.B64(res['smap']))
-        else:
-            expected = final_code
-        verdict, model = cvc5_check(list(ctx.solver.assertions()) + [out != expected])
-        desc = {'print_comments': res['comments'], 'comment_present': res['has_comment'], 'map_non_empty': res['nonempty_map']}
+        trailer = z3.Concat(z3.StringVal('\n//# sourceMappingURL=data:application/json;base64,'), models.B64(res['smap'])) if res['nonempty_map'] else z3.StringVal('')
+        expected = z3.Concat(final_code, trailer)
+        # removing the whole comment (delimiters included) is as good as emptying it: the property only asks that the
+        # superseded comment is gone and nothing else changes
+        expected_alt = z3.Concat(res['pre'], res['post'], trailer) if removing else expected
+        desc = {'print_comments': res['comments'], 'comment_present': res['has_comment'], 'map_non_empty': res['nonempty_map'], 'comment_style': res['style']}
+        role = 'print/unexpected-content'
+        verdict = 'unsat'
+        model = None
+        if removing:
+            # first with the comment text occurring exactly once in the printed code (at the comment): the superseded comment must be
+            # removed and nothing else touched; any failure here is a defect of the removal itself
+            at = z3.Length(res['pre']) + len(opener)
+            once = z3.And(z3.IndexOf(res['code'], res['cterm'], z3.IntVal(0)) == at, z3.IndexOf(res['code'], res['cterm'], at + 1) == -1)
+            # (bound of this query: text before the comment <= 8 characters; cvc5 does not finish with 24)
+            verdict, model = cvc5_check(list(ctx.solver.assertions()) + [once, z3.Length(res['pre']) <= 8, out != expected, out != expected_alt])
+            ctx.queries += 1
+            info['obligations'] += 1
+            role = 'print/superseded-comment-not-removed:%s-comment' % res['style']
+        if verdict == 'unsat':
+            verdict, model = cvc5_check(list(ctx.solver.assertions()) + [out != expected, out != expected_alt])
+            ctx.queries += 1
+            role = 'print/comment-removal-alters-other-text' if removing else 'print/unexpected-content'
         info['sample'] = {'input': json.dumps(desc), 'output': verdict, 'status': 'n/a', 'hooks': 0}
-        ctx.queries += 1
         if verdict == 'unknown':
             raise Unsupported('cvc5 could not decide the print_js query: %s' % model)
         if verdict == 'sat':
@@ -1102,10 +1251,10 @@ class PrintScenario:
             nat = replay().print_js(code, smap, comment, {'methods': None, 'comments': res['comments'], 'chain': False})
             pre, post = model.get('pre', ''), model.get('post', '')
             import base64
-            exp_code = (pre + '//' + post) if (res['comments'] and res['has_comment']) else code
+            exp_code = (pre + opener + closer + post) if removing else code
             exp = exp_code + (('\n//# sourceMappingURL=data:application/json;base64,' + base64.b64encode(smap.encode('utf8')).decode('ascii')) if smap else '')
-            agree = nat.get('ok') and nat.get('content') != exp
-            role = 'print/comment-removal-alters-other-text' if (res['comments'] and res['has_comment']) else 'print/unexpected-content'
+            exp_alt = (pre + post + exp[len(exp_code):]) if removing else exp
+            agree = nat.get('ok') and nat.get('content') != exp and nat.get('content') != exp_alt
             info['violations'].append({'prop': 'C10', 'role': role, 'detail': 'code=%r comment=%r -> %r, expected %r' % (code, comment, nat.get('content'), exp),
                                        'witness': {'input': code, 'config': desc, 'agree': bool(agree), 'native_output': nat.get('content'), 'predicted_output': exp, 'native': {'ok': nat.get('ok')}, 'note': 'query decided by cvc5 (str.replace_all)'}})
         return info
@@ -1113,6 +1262,60 @@ class PrintScenario:
 
 # ---------------------------------------------------------------------------------------------
 # RewriterConfig::to_config (C05: documented defaults, prologue text)
+
+_B64 = 'ABCDEFGHIJKLMNOPQRSTUVWXYZabcdefghijklmnopqrstuvwxyz0123456789+/'
+
+
+def decode_mappings(mappings):
+    """source-map v3 `mappings` -> [(gen_line, gen_col, src_idx, src_line, src_col)]"""
+    out = []
+    si = sl = sc = 0
+    for gl, line in enumerate(mappings.split(';')):
+        gc = 0
+        for seg in line.split(','):
+            if not seg:
+                continue
+            vals, shift, val = [], 0, 0
+            for ch in seg:
+                d = _B64.index(ch)
+                val += (d & 31) << shift
+                shift += 5
+                if not d & 32:
+                    vals.append(-(val >> 1) if val & 1 else val >> 1)
+                    shift = val = 0
+            gc += vals[0]
+            if len(vals) >= 4:
+                si += vals[1]
+                sl += vals[2]
+                sc += vals[3]
+                out.append((gl, gc, si, sl, sc))
+    return out
+
+
+def mappings_outside(source_map_json, text):
+    """mappings of a v3 map whose original position is not inside `text`"""
+    m = json.loads(source_map_json)
+    lines = text.split('\n')
+    bad = []
+    for (gl, gc, si, sl, sc) in decode_mappings(m.get('mappings', '')):
+        if sl >= len(lines) or sc > len(lines[sl]):
+            bad.append({'generated': [gl, gc], 'original': [sl, sc]})
+    return bad
+
+
+def nondummy_spans(v, acc):
+    if isinstance(v, (list, tuple)):
+        for x in v:
+            nondummy_spans(x, acc)
+    elif isinstance(v, dict):
+        if v.get('_t') == 'Span':
+            if not O.span_is_dummy(v):
+                acc.append(v)
+            return
+        for x in v.values():
+            nondummy_spans(x, acc)
+    return acc
+
 
 class ToConfigScenario:
     VERBS = [None, 'OFF', 'off', 'Debug', 'MANDATORY', 'INFORMATION', 'bogus', '']
@@ -1237,5 +1440,22 @@ class ToConfigScenario:
         fp = c['file_prefix_code']
         if len(fp) != 1:
             vio('prologue/parsed-statements-not-used', True, '%d statements' % len(fp))
+        # the template is parsed in a source map of its own (`inline.js`): positions of that file mean nothing in the file being
+        # rewritten, yet the statements are emitted into every modified file and their spans are looked up in *that* file when
+        # the source map is built.  Obligation: the statements kept in the configuration carry no position of the template file.
+        foreign = nondummy_spans(fp, [])
+        info['obligations'] += 2
+        if foreign and inp['methods']:
+            ncfg = {'methods': [{'src': e['src'], 'dst': e['dst'], 'operator': bool(e['operator']), 'allowed_without_callee': bool(e['awc'])} for e in exp_ms], 'prologue': True}
+            ncfg['methods'][-1]['operator'] = True
+            short = 'function f(a, b) { return a + b; }'
+            nat = replay().rewrite(short, ncfg)
+            bad = mappings_outside(nat['source_map'], short) if nat.get('ok') and nat.get('source_map') else []
+            info['violations'].append({'prop': 'C09', 'role': 'map/prologue-carries-positions-of-the-template-file', 'detail': '%d spans of the prologue template (inline.js) are kept in Config.file_prefix_code; generated prologue tokens are then mapped to those byte offsets of the rewritten file' % len(foreign),
+                                       'witness': {'input': short, 'config': ncfg, 'agree': bool(bad), 'predicted_output': 'mappings of prologue tokens point outside the input text', 'native_output': json.dumps(bad[:6]), 'native': {'ok': nat.get('ok'), 'mappings_outside_input': len(bad)}}})
+            wide = '/* ' + '\u00e9' * 90 + ' */ ' + short
+            nat2 = replay().rewrite(wide, ncfg)
+            info['violations'].append({'prop': 'C13', 'role': 'panic/prologue-position-inside-multibyte-character', 'detail': 'positions of the prologue template are looked up in the rewritten file: a byte offset that falls inside a multi-byte character trips swc_common\'s debug assertion (debug profile; release builds compute a wrong column instead)',
+                                       'witness': {'input': wide, 'config': ncfg, 'agree': bool(nat2.get('panic') or nat2.get('crashed')), 'predicted_output': 'panic', 'native_output': json.dumps(nat2)[:400], 'native': {k: nat2.get(k) for k in ('ok', 'panic', 'err')}}})
         info['sample'] = {'input': json.dumps(inp), 'output': json.dumps({k: str(v) for k, v in c.items() if k in ('chain_source_map', 'print_comments', 'literals', 'local_var_prefix')}), 'status': 'n/a', 'hooks': 0}
         return info
